@@ -98,6 +98,11 @@ int wrap_owned_fds(int *out, int max)
 
 int wrap_live_allocs(void) { return heap_live; }
 
+#ifdef VERIF_COV
+void __gcov_dump(void);
+void __gcov_reset(void);
+#endif
+
 // ---------------------------------------------------------------- basics
 void wrap_init(void)
 {
@@ -313,6 +318,9 @@ pid_t __wrap_fork(void)
   pid_t p = fork();
   if (p == 0) {
     w_side = 1;
+#ifdef VERIF_COV
+    __gcov_reset();
+#endif
     memset(cnt[1], 0, sizeof cnt[1]);
     if (w_on_fork_child) w_on_fork_child();
     return 0;
@@ -407,12 +415,19 @@ pid_t __wrap_waitpid(pid_t pid, int *status, int options)
 }
 
 #ifdef VERIF_COV
-void __gcov_dump(void);
+// Coverage survey only. gcov derives most arc counts from flow conservation, which a dump
+// from the middle of process_start (forked child, before exec) breaks for that function:
+// the child's counters are reset at fork and written only when VERIF_COV_CHILD is set, so
+// one pass gives exact parent-side numbers and a second one shows the child-side lines.
+static void cov_child_dump(void)
+{
+  if (w_side == 1 && getenv("VERIF_COV_CHILD")) __gcov_dump();
+}
 #endif
 int __wrap_execvp(const char *file, char *const argv[])
 {
 #ifdef VERIF_COV
-  __gcov_dump();
+  cov_child_dump();
 #endif
   int k = next_k(F_execvp);
   trec *t = rec(F_execvp, k, 0, 0, 0);
@@ -445,7 +460,7 @@ void __wrap__exit(int code)
   trec *t = rec(F__exit, k, code, 0, 0);
   (void) t;
 #ifdef VERIF_COV
-  __gcov_dump();
+  cov_child_dump();
 #endif
   _exit(code);
 }
